@@ -84,7 +84,7 @@ func searchStage(r *ev.Run, full bool) {
 						}
 						c := scase{"LineSearch", f.name, []float64{float64(stops), float64(rec), iv[0], iv[1]}}
 						want := f.f(x)
-						if math.Abs(fv-want) > 1e-12 {
+						if !(math.Abs(fv-want) <= 1e-12) {
 							r.Violation("LineSearch/value", fmt.Sprintf("%s, stops=%d recursions=%d on %v minimize=%v: returned value %g but f(x=%g) = %g", f.name, stops, rec, iv, minimize, fv, x, want), c)
 						}
 						if fv < best-1e-12 {
@@ -143,14 +143,14 @@ func searchStage(r *ev.Run, full bool) {
 					c := scase{"GridSearch2D", fa.name + " + " + fb.name, []float64{float64(stops), float64(rec)}}
 					gs := &numerical.GridSearch2D{XStops: stops, YStops: stops + 1, Recursions: rec}
 					p, v := gs.Maximize(numerical.Vec2{-1, -1}, numerical.Vec2{1, 1}, g2)
-					if math.Abs(v-(fa.f(p[0])+fb.f(p[1]))) > 1e-12 || v < best-1e-12 {
+					if !(math.Abs(v-(fa.f(p[0])+fb.f(p[1]))) <= 1e-12) || v < best-1e-12 {
 						r.Violation("GridSearch2D/worse-than-a-sample", fmt.Sprintf("%s stops=%d recursions=%d: returned f=%g at %v (f there = %g), best sample %g", c.Func, stops, rec, v, p, fa.f(p[0])+fb.f(p[1]), best), c)
 					}
 					best = math.Inf(-1)
 					rl := &numerical.RecursiveLineSearch[numerical.Vec2]{LineSearch: numerical.LineSearch{Stops: stops, Recursions: rec}}
 					p, v = rl.Maximize(numerical.Vec2{-1, -1}, numerical.Vec2{1, 1}, g2)
 					c.Kernel = "RecursiveLineSearch"
-					if math.Abs(v-(fa.f(p[0])+fb.f(p[1]))) > 1e-12 || v < best-1e-12 {
+					if !(math.Abs(v-(fa.f(p[0])+fb.f(p[1]))) <= 1e-12) || v < best-1e-12 {
 						r.Violation("RecursiveLineSearch/worse-than-a-sample", fmt.Sprintf("%s stops=%d recursions=%d: returned f=%g at %v (f there = %g), best sample %g", c.Func, stops, rec, v, p, fa.f(p[0])+fb.f(p[1]), best), c)
 					}
 					if stops <= 3 {
@@ -167,7 +167,7 @@ func searchStage(r *ev.Run, full bool) {
 						gs3 := &numerical.GridSearch3D{XStops: stops, YStops: stops + 1, ZStops: stops, Recursions: rec}
 						p3, v3 := gs3.Maximize(numerical.Vec3{-1, -1, -1}, numerical.Vec3{1, 1, 1}, g3)
 						c.Kernel = "GridSearch3D"
-						if math.Abs(v3-(fa.f(p3[0])+fb.f(p3[1])+fa.f(p3[2]))) > 1e-12 || v3 < best-1e-12 {
+						if !(math.Abs(v3-(fa.f(p3[0])+fb.f(p3[1])+fa.f(p3[2]))) <= 1e-12) || v3 < best-1e-12 {
 							r.Violation("GridSearch3D/worse-than-a-sample", fmt.Sprintf("%s stops=%d recursions=%d: returned f=%g at %v, best sample %g", c.Func, stops, rec, v3, p3, best), c)
 						}
 					}
@@ -194,7 +194,7 @@ func angleStage(r *ev.Run) {
 			r.Violation("CanonicalAngle/range", fmt.Sprintf("CanonicalAngle(%g) = %g is outside [0, 2 pi)", a, got), c)
 		}
 		tol := 1e-9 * (1 + math.Abs(a))
-		if math.Abs(math.Sin(got)-math.Sin(a)) > tol || math.Abs(math.Cos(got)-math.Cos(a)) > tol {
+		if !(math.Abs(math.Sin(got)-math.Sin(a)) <= tol) || !(math.Abs(math.Cos(got)-math.Cos(a)) <= tol) {
 			r.Violation("CanonicalAngle/congruent", fmt.Sprintf("CanonicalAngle(%g) = %g is not congruent to the input modulo 2 pi", a, got), c)
 		}
 		r.NontrivialAdd(1)
@@ -204,7 +204,7 @@ func angleStage(r *ev.Run) {
 			r.Eval(1)
 			want := math.Abs(math.Atan2(math.Sin(a-b), math.Cos(a-b)))
 			got := toolbox3d.AngleDist(a, b)
-			if math.Abs(got-want) > 1e-9*(1+math.Abs(a)+math.Abs(b)) {
+			if !(math.Abs(got-want) <= 1e-9*(1+math.Abs(a)+math.Abs(b))) {
 				r.Violation("AngleDist", fmt.Sprintf("AngleDist(%g, %g) = %g, circular distance is %g", a, b, got, want), scase{"AngleDist", "", []float64{a, b}})
 				break
 			}
